@@ -1289,6 +1289,78 @@ def rule_freshopt(ctx):
                         lambda i: True, 1)
 
 
+def rule_logdomain(ctx):
+    """(seed C05_9) The greedy finder's sampled score is sign(s)·log|s|; s is exactly 0 for ties the generic case never
+    shows (a contraction whose result is as large as its operands weigh).  Every `math.log(X)` of a bare local in the
+    path simulator's scoring closures sits on the true branch of `X > 0` (or `math.log(-X)` of `X < 0`): a branch that
+    only excludes the other sign lets 0 through and the finder raises ValueError instead of returning a path."""
+    r = RuleResult("C05-LOGDOMAIN", "logarithms in the greedy score are taken of strictly positive values", 2)
+    m = ctx.p.modules[C.BASIC]
+    for f in m.all_funcs:
+        k = 0
+        for call in (n for n in walk_local(f.node) if isinstance(n, ast.Call)):
+            if dotted(call.func) not in ("math.log", "math.log2", "math.log10") or len(call.args) != 1:
+                continue
+            a = call.args[0]
+            neg = isinstance(a, ast.UnaryOp) and isinstance(a.op, ast.USub) and isinstance(a.operand, ast.Name)
+            if not (isinstance(a, ast.Name) or neg):
+                continue
+            nm = a.operand.id if neg else a.id
+            # only values computed in this function by arithmetic (a score), not parameters such as a temperature
+            fl = ctx.flow(f)
+            defs = fl.defs_reaching(nm, fl.node_of_expr(call))
+            if not defs or any(d_.kind == "param" for d_ in defs) or not any(isinstance(d_.value, ast.BinOp) for d_ in defs if d_.value is not None):
+                continue
+            cons = f"{C.BASIC}::{f.qual}::C05-LOGDOMAIN::log({'-' if neg else ''}{nm})#{k}"
+            k += 1
+            ALL = {"neg", "zero", "pos"}
+
+            def region(t):
+                """sign region of `nm` in which test t is true, or None if t says nothing about it"""
+                if not (isinstance(t, ast.Compare) and len(t.ops) == 1):
+                    return None
+                l, op, rr = t.left, t.ops[0], t.comparators[0]
+                zero = lambda e: isinstance(e, ast.Constant) and e.value == 0
+                is_nm = lambda e: isinstance(e, ast.Name) and e.id == nm
+                tab = {ast.Gt: {"pos"}, ast.GtE: {"zero", "pos"}, ast.Lt: {"neg"}, ast.LtE: {"neg", "zero"}, ast.Eq: {"zero"}, ast.NotEq: {"neg", "pos"}}
+                flip = {ast.Gt: ast.Lt, ast.GtE: ast.LtE, ast.Lt: ast.Gt, ast.LtE: ast.GtE, ast.Eq: ast.Eq, ast.NotEq: ast.NotEq}
+                if is_nm(l) and zero(rr) and type(op) in tab:
+                    return tab[type(op)]
+                if zero(l) and is_nm(rr) and type(op) in tab:
+                    return tab[flip[type(op)]]
+                return None
+            dom = set(ALL)
+            st0 = C.enclosing_stmt(f, call)
+            # tests of the enclosing ifs
+            for i_, in_true in C.enclosing_ifs(f, st0):
+                rg = region(i_.test)
+                if rg is not None:
+                    dom &= rg if in_true else (ALL - rg)
+            # earlier statements of the enclosing blocks that leave the function when their test holds
+            cur = st0
+            parents_ = f.module.parents
+            while cur is not None and cur is not f.node:
+                par = parents_.get(cur)
+                for fld in ("body", "orelse"):
+                    blk = getattr(par, fld, None)
+                    if isinstance(blk, list) and any(cur is x for x in blk):
+                        for prev in blk[:[i for i, x in enumerate(blk) if x is cur][0]]:
+                            if isinstance(prev, ast.If) and prev.body and isinstance(prev.body[-1], (ast.Return, ast.Raise, ast.Continue, ast.Break)) \
+                                    and not prev.orelse:
+                                rg = region(prev.test)
+                                if rg is not None:
+                                    dom -= rg
+                cur = par
+            ok = dom <= ({"neg"} if neg else {"pos"})
+            if ok:
+                r.ok(cons, C.loc(f, call), "argument strictly positive on this branch")
+            else:
+                r.violation(cons, C.loc(f, call), f"`{C.unparse(call)}` is reached without a test that makes its argument strictly positive: a score of "
+                            "exactly 0 (a tie between what a contraction creates and what it removes) raises ValueError('math domain error') and "
+                            "the finder returns no path")
+    return r
+
+
 def _shared_rules():
     """Completion of partial caller-supplied paths needs the converters to know the number of inputs (F22)."""
     out = []
@@ -1304,4 +1376,4 @@ def _shared_rules():
     return out
 
 
-RULES = [rule_freshopt, rule_progress, rule_nonempty, rule_zerostep, rule_emptypath, rule_cpstate, rule_consume, rule_remain, rule_complete, rule_linearids, rule_steps, rule_childless, rule_labels, rule_edgepath] + _shared_rules()
+RULES = [rule_logdomain, rule_freshopt, rule_progress, rule_nonempty, rule_zerostep, rule_emptypath, rule_cpstate, rule_consume, rule_remain, rule_complete, rule_linearids, rule_steps, rule_childless, rule_labels, rule_edgepath] + _shared_rules()
